@@ -3,10 +3,15 @@ import json, os, re, shutil, subprocess, sys, tempfile, time, hashlib
 
 VERIF = os.path.dirname(os.path.dirname(os.path.abspath(__file__)))
 SPEC = os.path.join(VERIF, "spec")
-HARNESS = os.path.join(VERIF, "harness")
-WORK = os.path.join(VERIF, "work")
-EVID = os.path.join(VERIF, "evidence")
-REPLAYS = os.path.join(VERIF, "replays")
+# VERIF_SCRATCH (used only by lib/scratch_seed.sh to try a seeded change without touching /repo or the committed
+# evidence): a directory holding a worktree `repo`, a copy of the harness pointed at it, and all outputs
+SCRATCH = os.environ.get("VERIF_SCRATCH")
+REPO = os.path.join(SCRATCH, "repo") if SCRATCH else "/repo"
+OUT = SCRATCH if SCRATCH else VERIF
+HARNESS = os.path.join(OUT, "harness")
+WORK = os.path.join(OUT, "work")
+EVID = os.path.join(OUT, "evidence")
+REPLAYS = os.path.join(OUT, "replays")
 GVH = os.path.join(HARNESS, "target", "debug", "gvh")
 JAR = "/opt/veriftools/tla/tla2tools.jar:/opt/veriftools/tla/CommunityModules-deps.jar"
 
@@ -43,7 +48,7 @@ def build_harness():
         return GVH
     t = time.time()
     env = dict(os.environ, CARGO_NET_OFFLINE="true")
-    lock = os.path.join(VERIF, "work", ".cargo.lock")
+    lock = os.path.join(WORK, ".cargo.lock")
     os.makedirs(os.path.dirname(lock), exist_ok=True)
     import fcntl
     with open(lock, "w") as lf:
